@@ -46,7 +46,7 @@ Rows(cfg) == 1..Len(cfg.funcs)
 JudgeC11(e) ==
   IF ~e.cfgok THEN <<>>
   ELSE LET cfg == e.cfg
-           called  == { cfg.nodes[i].node.lab : i \in { j \in 1..NN(cfg) : KN(cfg, j) = "call" } }
+           called  == { cfg.nodes[i].node.lab : i \in { j \in 1..NN(cfg) : KN(cfg, j) = "call" } } \cup HandlerLabels(cfg)
            fentry  == { i \in 1..NN(cfg) : KN(cfg, i) = "fentry" }
            expectE == { i \in 1..NN(cfg) : SeqSet(cfg.nodes[i].labels) \cap called # {} }
            tableE  == { cfg.funcs[k].entry : k \in Rows(cfg) }
